@@ -189,6 +189,15 @@ def floordiv(a, b):
     return F.Rat(q) + F.fn("floordiv", F.Rat(rem), b)
 
 
+def refloor(r):
+    """floor divisions re-evaluated after a substitution made their operands more definite (x // 1 is x, 12 // 4 is 3)"""
+    def post(name, args):
+        if name == "floordiv" and len(args) == 2 and not isinstance(args[0], str) and not isinstance(args[1], str) and not args[1].is_zero():
+            return floordiv(args[0], args[1])
+        return None
+    return rewrite(r, post=post)
+
+
 def whole(r):
     """the same formula under the format invariant 'records hold whole values': every x // b is x / b"""
     def post(name, args):
@@ -198,7 +207,7 @@ def whole(r):
     return rewrite(r, post=post, memo=_MEMO_WHOLE)
 
 
-_MEMO_WHOLE, _MEMO_CT1, _MEMO_CT2, _MEMO_SETTLE = {}, {}, {}, {}
+_MEMO_WHOLE, _MEMO_CT1, _MEMO_CT2, _MEMO_SETTLE, _MEMO_MOD = {}, {}, {}, {}, {}
 
 
 def canon_tests(r):
@@ -236,6 +245,16 @@ def canon_tests(r):
         return None
     out = rewrite(r, post=post, memo=_MEMO_CT1)
     return rewrite(out, post=_canon_empty, memo=_MEMO_CT2)
+
+
+def _canon_mod(name, args):
+    """x % 2 is the parity of x, x % 65536 its low 16 bits (where the evaluator left the operation undetermined)"""
+    if name == "mod" and len(args) == 2 and not isinstance(args[0], str) and not isinstance(args[1], str) and args[1].is_const():
+        if args[1].const_value() == 2:
+            return F.fn("odd", args[0])
+        if args[1].const_value() == 65536:
+            return F.fn("lo16", args[0])
+    return None
 
 
 def _canon_empty(name, args):
@@ -310,7 +329,7 @@ def norm(r, whole_values=True):
     k = (r.n.key(), r.d.key(), whole_values)
     out = _NORM.get(k)
     if out is None:
-        out = canon_tests(expand_words(r))
+        out = canon_tests(expand_words(rewrite(r, post=_canon_mod, memo=_MEMO_MOD)))
         if whole_values:
             out = whole(out)
         if len(_NORM) > 20000:
@@ -1196,9 +1215,11 @@ class Walker:
             return F.fn("truediv", a, b)
         if isinstance(op, ast.Mod):
             a, b = need(a), need(b)
-            if not _is_str(a) and b.is_const() and b.const_value() == 2:
+            # (a bare name may hold a format text: `name % 2` stays an undetermined `mod`, read as a parity only when values are compared)
+            numeric = not _is_str(a) and sym_name(a) is None
+            if numeric and b.is_const() and b.const_value() == 2:
                 return F.fn("odd", a)
-            if not _is_str(a) and b.is_const() and b.const_value() == 65536:
+            if numeric and b.is_const() and b.const_value() == 65536:
                 # x % 65536 is x & 0xFFFF
                 r = self._int(ast.BinOp(left=node.left, op=ast.BitAnd(), right=node.right), self._split_words(a), F.const(0xFFFF), ev)
                 if not is_unknown(r):
